@@ -28,7 +28,7 @@ res_demo=$(cd "$wt/pkg/go" && go test -vet=off -count=1 ./${pkg#pkg/go/}/ 2>&1 |
 echo "--- mutant, demo: $res_demo"
 # regenerate the patch against current HEAD so it applies cleanly
 rm "$wt/$pkg/zz_seed_demo_test.go"
-git -C "$wt" diff HEAD > "$dst/patch.diff"
+git -C "$wt" add -A -N; git -C "$wt" diff HEAD > "$dst/patch.diff"
 # run the check against the patched scratch worktree through a private copy of /verif, so that /repo itself
 # (and anything running against it) is never touched
 vc=/tmp/svv-$prop-$mn-$$
